@@ -40,7 +40,7 @@ var configs = []fiber.Config{
 	{BodyLimit: 64, ReadBufferSize: 512},
 	{RequestMethods: []string{"GET", "POST", "HEAD", "FOO"}},
 	{TrustProxy: true, ProxyHeader: "X-Forwarded-For", EnableIPValidation: true, EnableSplittingOnParsers: true, TrustProxyConfig: fiber.TrustProxyConfig{Private: true}},
-	{}, // + custom ctx
+	{},                                   // + custom ctx
 	{BodyLimit: 64, ReadBufferSize: 512}, // + an application ErrorHandler that looks at the request (every accessor) before it answers like the default one
 	{RequestMethods: []string{"GET", "HEAD"}}, // + the same ErrorHandler, reduced method set
 }
